@@ -560,3 +560,83 @@ def _read_child_data(flat):
 
 
 _accessor("read_child_data", {"EZSPv4": _read_child_data(True), "EZSPv7": _read_child_data(False)})
+
+
+# ---------------------------------------------------------------------------
+# route / extended-timeout set-up wrappers used by send_packet (C12)
+# ---------------------------------------------------------------------------
+def _c12_accessor(method, by_defining_class):
+    for dcls, classes in versions_of(method).items():
+        build = by_defining_class.get(dcls.__name__)
+        if build is None:
+            continue
+        qn = f"{dcls.__module__}.{dcls.__qualname__}.{method}"
+
+        @contract(qn, props=["C12"])
+        def _(c, classes=classes, build=build, dcls=dcls):
+            c.self(handler_spec(dcls))
+            c.cases(*cases_for(classes))
+            _std_raises(c)
+            build(c)
+
+
+def _set_source_route_command(c):
+    _with_args(c, {"nwk": T.typed_int(t.EmberNodeId), "relays": T.const([t.EmberNodeId(0x1234), t.EmberNodeId(0x5678)])})
+    # the route of THIS destination is handed to the NCP, under this version's parameter names; the normalised status
+    # of the answer is returned
+    c.ensures(
+        "post.route_of_this_destination_set",
+        lambda self, nwk, relays, fx: [q[0] for q in commands(fx)] == ["setSourceRoute"]
+        and commands(fx)[0][1]["destination"] == nwk and commands(fx)[0][1]["relayList"] == relays
+        and sorted(commands(fx)[0][1].keys()) == sorted(tx_names(self, "setSourceRoute")),
+        on="any",
+    )
+    c.ensures("post.normalised_status", lambda result, fx: result == t.sl_Status.from_ember_status(field(responses(fx)[0], "status")))
+
+
+def _set_source_route_noop(c):
+    _with_args(c, {"nwk": T.typed_int(t.EmberNodeId), "relays": T.const([t.EmberNodeId(0x1234)])})
+    # from v9 on the NCP keeps its own route table: nothing is sent, success is reported
+    c.ensures("post.nothing_sent_and_ok", lambda result, fx: commands(fx) == [] and result == t.sl_Status.OK)
+
+
+_c12_accessor("set_source_route", {"EZSPv4": _set_source_route_command, "EZSPv9": _set_source_route_noop})
+
+
+def _set_extended_timeout(c):
+    _with_args(c, {"nwk": T.typed_int(t.EmberNodeId), "ieee": T.opaque, "extended_timeout": T.bool})
+    c.raises("table_size_unusable", ValueError)  # random.randint over an empty range: the NCP reported a table of size 0
+    # everything this wrapper asks or tells the NCP is about THIS device (its EUI64 / its NWK address), the flag
+    # written is the one requested, and it writes at most once
+    c.ensures(
+        "post.only_this_device",
+        lambda self, nwk, ieee, extended_timeout, fx: commands(fx)[0] == ("getExtendedTimeout", {"remoteEui64": ieee})
+        and all(
+            (q[0] == "lookupNodeIdByEui64" and q[1] == {"eui64": ieee})
+            or (q[0] == "setExtendedTimeout" and q[1] == {"remoteEui64": ieee, "extendedTimeout": extended_timeout})
+            or (q[0] == "getConfigurationValue" and q[1] == {"configId": t.EzspConfigId.CONFIG_ADDRESS_TABLE_SIZE} or q[0] == "getConfigurationValue")
+            or (q[0] == "replaceAddressTableEntry" and q[1]["newEui64"] == ieee and q[1]["newId"] == nwk
+                and q[1]["newExtendedTimeout"] == extended_timeout)
+            for q in commands(fx)[1:]
+        )
+        and len([q for q in commands(fx) if q[0] in ("setExtendedTimeout", "replaceAddressTableEntry")]) <= 1,
+        on="any",
+    )
+    # nothing is written when the NCP already has the requested flag for this device
+    c.ensures(
+        "post.no_write_when_already_set",
+        lambda extended_timeout, fx: implies(
+            field(responses(fx)[0], "extendedTimeout") == extended_timeout, len(commands(fx)) == 1
+        ),
+    )
+    c.ensures(
+        "post.otherwise_one_write",
+        lambda extended_timeout, fx: implies(
+            field(responses(fx)[0], "extendedTimeout") != extended_timeout,
+            len([q for q in commands(fx) if q[0] in ("setExtendedTimeout", "replaceAddressTableEntry")]) == 1,
+        ),
+    )
+    c.modifies("self._address_table_size", "self._seq", "self._awaiting")  # (commands advance the sequence counter)
+
+
+_c12_accessor("set_extended_timeout", {"EZSPv4": _set_extended_timeout})
